@@ -588,7 +588,7 @@ def decoders(ctx, rep):
                         # constraint on the coin alone)
                         E = _expected_accept(I, P, coin, lay)
                         extra = [I.V.show(E.reduce(mk(m_, c_))) for m_, c_ in C.rows.values() if E.reduce(mk(m_, c_)) != 0
-                                 and not all(n_.startswith('nwords.') for n_ in I.V.show_mask(m_))]     # (the word count summary symbol is the tokeniser's)
+                                 and any(n_.startswith(('idx', 'coin')) for n_ in I.V.show_mask(m_))]     # (constraints purely on summary symbols - word count, normaliser length under assertions - are the helpers')
                         rep.check(not extra, 'OK exit is constrained by nothing beyond "checksum over (indices, coin) vanishes" and "reserved feature bits are zero"', w, cons,
                                   detail=extra[:4], key=key + '|exact-accept')
             summaries[fname] = sorted((inv_status.get(o.ret.concrete(), '?'), tuple(k for k in _exit_kind(o) if not k.startswith('phrase_decode') and k != 'alloc') ) for o in outs)
